@@ -560,3 +560,11 @@ _targets_without_structure = targets
 
 def targets():      # noqa: F811
     return _targets_without_structure() + [target_structure_copies()]
+
+
+_targets_before_observers = targets
+
+
+def targets():      # noqa: F811
+    from . import purity
+    return _targets_before_observers() + [purity.target_observers(["circuit/base", "circuit/series", "circuit/parallel", "circuit/circuit", "circuit/circuit_builder", "circuit/transmission_line_model"], "circuit observers keep no state")]
